@@ -94,6 +94,18 @@ REGISTRY["C08"] = {
     "assumptions": _AS_COMMON,
 }
 
+REGISTRY["C06"] = {
+    "modules": ["contracts.riscv"],
+    "category": "proof",
+    "technique": "contract-based deductive verification of the real code: each RV32I/RV64I base opcode is decoded by the real disassembler and executed by the real i_XXX semantics on a map whose 31 registers, pc and touched memory bytes are symbolic; postcondition = reference interpreter written from the ISA manual; VCs discharged by z3",
+    "level_text": "RISC-V half only. Per base opcode and per enumerated (rd, rs1, rs2) index triple (quick: coincidence patterns over {0,1,2,5,10,30,31}; thorough: all 32 indices), for ALL immediates, ALL register values, pc and memory bytes: every register, the next pc and the stored bytes after instruction(mapper) equal the reference interpreter. Loads/stores take their immediates from a boundary set (the memory operand's text needs a concrete displacement). The x86/x64 half of the property (the oracle is the physical processor) is not decided by this check.",
+    "level_note": "trusted: z3, CPython dispatch, symx engine/shims, specs/rv_ref.py (written from the RISC-V unprivileged ISA manual), SymKeyDict wrapper of the decoder tree. Known findings (RV64I, recorded not repaired) are listed in known_findings.json. x86 half: not applicable to contracts (no specification of the processor in the sandbox).",
+    "design_ref": "DESIGN.md section 4 (C06), section 5",
+    "explanation": "RISC-V half: per-opcode contracts discharged for all states; x86 half not decided",
+    "trusted_base": _TB + ["specs/rv_ref.py (reference interpreter from the ISA manual)", "SymKeyDict wrapper of the decoder tree"],
+    "assumptions": _AS_COMMON + ["x86/x64 half of C06 is not covered (see not_applicable reasoning in DESIGN.md section 5)", "memory accesses are assumed not to wrap around the address space (address <= 2^XLEN - 16)"],
+}
+
 NOT_APPLICABLE = {
     "C07": "the oracle is the behaviour of two external programs (binutils, LLVM): no contract on amoco's functions can state it without hand-writing a model of those decoders; a vendored table comparison is example-based testing, a different family",
 }
